@@ -112,6 +112,10 @@ struct Item {
     /// segment (nested loops for flat_map) that inserts every item into `<loopify>::new()`; value = accumulator type path
     #[serde(default)]
     loopify: Option<String>,
+    /// E14b (with `loopify`): `.map(closure)` / `.filter(closure)` stages of a collected pipeline are fused into the loop body
+    /// (closure bodies inlined, parameters bound by `let`), so closures that capture `&mut` state (a PRNG) disappear
+    #[serde(default)]
+    fuse: bool,
 }
 
 #[derive(Deserialize, Debug)]
@@ -281,8 +285,129 @@ impl<'a> Ctx<'a> {
     /// justified by the rustdoc of `FromIterator for BTreeSet` (every item is inserted), `Iterator::chain` (all items of the
     /// first iterator, then all items of the second) and `Iterator::flat_map` (for every item of the outer iterator, in
     /// order, every item of the iterator the closure returns)
+    /// E14b: one collected segment as a loop; `.map(|PAT| B)` / `.filter(|PAT| B)` stages are fused into the loop body:
+    /// `for vx_xK in BASE { let PAT = vx_xK; let vx_sK_1 = B; let PAT2 = &vx_sK_1; if (B2) { SINK(vx_sK_1); } }`.
+    /// Items flow through all stages one at a time in source order, exactly as the lazy adapters evaluate them.
+    /// The text from the end of the segment up to `seg_end` is replaced by the loop's closing text.
+    fn emit_pipeline(&mut self, seg: &syn::Expr, seg_end: usize, sink: &str) {
+        use syn::visit::Visit;
+        // flat_map segment: nested pipeline on the closure's tail
+        if let syn::Expr::MethodCall(fm) = seg {
+            if fm.method == "flat_map" && fm.args.len() == 1 {
+                if let syn::Expr::Closure(cl) = &fm.args[0] {
+                    if cl.inputs.len() == 1 {
+                        let pat = self.src.slice(cl.inputs[0].span()).to_string();
+                        let (o1, l1s, l1e) = self.gen_loop("for-flat_map-outer", fm.span());
+                        let (as_, ae) = self.src.range(fm.receiver.span());
+                        self.add(as_, as_, format!("for {pat} in it{o1}: "), "E14 flat_map -> nested for");
+                        self.visit_expr(&fm.receiver);
+                        self.closures += 1;
+                        let tail: &syn::Expr = match &*cl.body {
+                            syn::Expr::Block(b) => match b.block.stmts.last() {
+                                Some(syn::Stmt::Expr(t, None)) => t,
+                                _ => { self.errors.push("E14: flat_map closure block without tail expression".into()); &*cl.body }
+                            },
+                            other => other,
+                        };
+                        let (bs, be) = self.src.range(cl.body.span());
+                        let (_, te) = self.src.range(tail.span());
+                        self.add(ae, bs, format!(" /*@LOOP{o1}@*/ {{ {l1s}"), "E14 flat_map -> nested for");
+                        if let syn::Expr::Block(b) = &*cl.body {
+                            let n = b.block.stmts.len();
+                            for st in &b.block.stmts[..n.saturating_sub(1)] { self.visit_stmt(st); }
+                        }
+                        self.emit_pipeline(tail, te, sink);
+                        self.add(be, seg_end, format!(" {l1e} }} "), "E14 flat_map -> nested for");
+                        return;
+                    }
+                }
+            }
+        }
+        // peel map / filter stages
+        let mut stages: Vec<(&str, &syn::ExprClosure, &syn::ExprMethodCall)> = vec![];
+        let mut base: &syn::Expr = seg;
+        loop {
+            match base {
+                syn::Expr::MethodCall(m) if (m.method == "map" || m.method == "filter") && m.args.len() == 1 => {
+                    if let syn::Expr::Closure(cl) = &m.args[0] {
+                        if cl.inputs.len() == 1 {
+                            stages.push((if m.method == "map" { "map" } else { "filter" }, cl, m));
+                            base = &m.receiver;
+                            continue;
+                        }
+                    }
+                    break;
+                }
+                _ => break,
+            }
+        }
+        stages.reverse();
+        for (_, cl, _) in &stages {
+            struct HasRet(bool);
+            impl<'x> syn::visit::Visit<'x> for HasRet {
+                fn visit_expr_return(&mut self, _: &'x syn::ExprReturn) { self.0 = true; }
+                fn visit_expr_try(&mut self, _: &'x syn::ExprTry) { self.0 = true; }
+            }
+            let mut h = HasRet(false);
+            h.visit_expr(&cl.body);
+            if h.0 { self.errors.push("E14b: `return` / `?` inside a fused closure".into()); }
+        }
+        let (o, ls, le) = self.gen_loop("for-collect-segment", seg.span());
+        let (bs_, be_) = self.src.range(base.span());
+        let var = format!("vx_x{o}");
+        self.add(bs_, bs_, format!("for {var} in it{o}: "), "E14 collect -> accumulator loops");
+        self.visit_expr(base);
+        let mut cur = var.clone();
+        let mut prev_end = be_;
+        let mut closers = String::new();
+        let mut pending = format!(" /*@LOOP{o}@*/ {{ {ls} ");
+        for (k, (kind, cl, _m)) in stages.iter().enumerate() {
+            self.closures += 1;
+            let pat = self.src.slice(cl.inputs[0].span()).to_string();
+            let (cbs, cbe) = self.src.range(cl.body.span());
+            if *kind == "map" {
+                let nv = format!("vx_s{o}_{}", k + 1);
+                self.add(prev_end, cbs, format!("{pending}let {pat} = {cur}; let {nv} = "), "E14b fused map stage");
+                pending = "; ".to_string();
+                cur = nv;
+            } else {
+                self.add(prev_end, cbs, format!("{pending}let {pat} = &{cur}; if ("), "E14b fused filter stage");
+                pending = ") { ".to_string();
+                closers.push_str(" }");
+            }
+            self.visit_expr(&cl.body);
+            prev_end = cbe;
+        }
+        self.add(prev_end, seg_end, format!("{pending}{sink}({cur}); {closers} {le} }} "), "E14 collect -> accumulator loops");
+    }
+    fn loopify_collect_fused(&mut self, whole: &syn::Expr, mc: &syn::ExprMethodCall) {
+        let n = self.sites.get("loopified_collect").cloned().unwrap_or(0);
+        self.site("loopified_collect");
+        let kinds: Vec<String> = self.item.loopify.clone().unwrap().split(',').map(|s| s.trim().to_string()).collect();
+        let acc_ty = kinds[n.min(kinds.len() - 1)].clone();
+        let acc = format!("vx_acc{}", n + 1);
+        let sink = if acc_ty == "Vec" { format!("{acc}.push") } else { format!("{acc}.insert") };
+        let mut segs: Vec<&syn::Expr> = vec![];
+        let mut cur: &syn::Expr = &mc.receiver;
+        loop {
+            match cur {
+                syn::Expr::MethodCall(c) if c.method == "chain" && c.args.len() == 1 => { segs.push(&c.args[0]); cur = &c.receiver; }
+                _ => { segs.push(cur); break; }
+            }
+        }
+        segs.reverse();
+        let (ws, we) = self.src.range(whole.span());
+        let first_s = self.src.range(segs[0].span()).0;
+        self.add(ws, first_s, format!("{{ let mut {acc} = {acc_ty}::new(); "), "E14 collect -> accumulator loops");
+        for (k, seg) in segs.iter().enumerate() {
+            let next_start = if k + 1 < segs.len() { self.src.range(segs[k + 1].span()).0 } else { we };
+            self.emit_pipeline(seg, next_start, &sink);
+        }
+        self.add(we, we, format!(" {acc} }}"), "E14 collect -> accumulator loops");
+    }
     fn loopify_collect(&mut self, whole: &syn::Expr, mc: &syn::ExprMethodCall) {
         use syn::visit::Visit;
+        if self.item.fuse { self.loopify_collect_fused(whole, mc); return; }
         let acc = self.item.loopify.clone().unwrap();
         // flatten the chain tree (left-nested method calls)
         let mut segs: Vec<&syn::Expr> = vec![];
